@@ -6,6 +6,11 @@ Tie P : every kernel x mode x type of geometry_processor.py is evaluated on rand
 Tie D : `c11.meshvol / mesharea / meshnormal` go through the id -> position lookup and the mixed-mesh assembly
         (`Cfg.alignById`), compared per element id on meshes with arbitrary ids / storage order;
         `c11.brick` reproduces generate_brick (connectivity exact, positions to 1e-12).
+Tie S : (symbolic-execution translator, harness/gen_kernels.py) the real calculate_element_volumes / _areas / _normals are
+        executed on ONE element with symbolic coordinates; the exact polynomial that comes out is emitted to Gen/Kernels.lean on
+        every run and Props/KernelTie.lean proves, by `ring` over every commutative ring, that it IS the model kernel
+        (KT_<api>_<type>_<mode>) and that the model's dispatch functions return it (KT_dispatch_...).  46 (type, mode) kernels;
+        built / audited separately (see `kernel_tie`): a changed formula breaks exactly the KT_ theorems of that kernel.
 Oracle: metamorphic, on the public API only: relabel ids, shuffle storage, exact rational rotation + translation,
         scaling, reflection; modes agree on affine cells and equal the closed form; bricks: counts, positivity,
         sum = box.
@@ -32,6 +37,11 @@ PARTIAL = [
     'areas: theorems are about the area vectors / radicands (area = sum sqrt(q) / den); sqrt itself, float rounding, the float32 '
     'accumulators and LAPACK det are runtime, covered by the tolerance of the P-tie',
     'generate_random_mesh (scipy Delaunay) is exercised by the oracle only',
+    'tie S (KT_ theorems: traced polynomial of the working tree = model kernel) covers every (type, mode) of volumes / areas / normals '
+    'except the two kernels with the float Gauss abscissa (hex "gaussian" volume, quad "gaussian" area: tie P only); polygon kernels at '
+    '3 and 5 nodes and polyhedron kernels on the tet and the pyramid face list (other arities: tie P only); float rounding, float32 '
+    'accumulation and the final sqrt / normalisation are outside it (tie P tolerance); a kernel the tracer cannot execute symbolically '
+    'is recorded in extra.kernel_tie.untraceable and keeps tie P only',
     'modes agree on straight planar-faced NON-affine cells: now theorems over any commutative ring, planarity = one hypothesis '
     'det(b-a, c-a, d-a) = 0 per quad face of the face table (C11_hex_modes_agree_planar [6 faces], C11_prism_modes_agree_planar '
     '[3], C11_pyr_modes_agree_planar [1]; the value is the face-fan volume the oracle calls `exact`: C11_hex_planar_exact, '
@@ -77,7 +87,14 @@ ASSUMPTIONS = [
     'the polygon branch of calculate_element_areas is transcribed as written (mode == "centroid" -> fan kernel, other modes -> '
     'centroid kernel)',
 ]
-TRUSTED = ['C11: sqrt of the exact radicands is taken on the Python side (math.sqrt of a Fraction)']
+TRUSTED = ['C11: sqrt of the exact radicands is taken on the Python side (math.sqrt of a Fraction)',
+           'C11 tie S: harness/gen_kernels.py (symbolic-execution translator working tree -> lean/Femio/Gen/Kernels.lean): exact polynomial '
+           'arithmetic of class Sym (numpy object arrays), and what it substitutes inside femio.geometry_processor while tracing: '
+           'np.linalg.det (hand specification: 3x3 cofactor expansion), np.linalg.norm (formal sum c_k |v_k|, no sqrt evaluated), '
+           'np.zeros / np.empty with a float dtype (object array of zeros), functions.normalize (identity: the model returns the '
+           'un-normalised normal), nodes._data (symbolic coordinates), njit kernels run through .py_func, float constants read as '
+           'the small-denominator rational that rounds to them (1. / 6. -> 1/6); everything else (np.cross, np.dot, np.stack, np.sum, '
+           'mean, indexing, the id -> index lookup, the mode / type dispatch) is the real code']
 
 S_GRID = 2 ** 20           # side of the grid the identity-testing points are drawn from
 R_MAX = 8                  # |coordinate| <= 8 (DESIGN 2.3: float32 accumulators of the centroid kernels)
@@ -122,7 +139,7 @@ def to_fem(m):
         else:
             data = np.array(rows)
         el[t] = FEMAttribute(t, ids=np.array([e for e, _ in b]), data=data, silent=True)
-    fd = G.quiet(lambda: FEMData(nodes=nodes, elements=FEMElementalAttribute('ELEMENT', el)))
+    fd = G.quiet(lambda: FEMData(nodes=nodes, elements=FEMElementalAttribute('ELEMENT', G.insertion_order(el))))
     if 'faces' in m:          # polyhedron: face data = [n_faces, k1, idx..., k2, idx...] with node STORAGE indices
         pos = {i: k for k, (i, _) in enumerate(m['nodes'])}
         face_dat = np.empty(len(m['blocks']['polyhedron']), object)
@@ -1000,6 +1017,119 @@ THEOREMS += [
 ]
 
 
+# ------------------------------------------------------------------------------------------ tie S (symbolic kernel tie)
+# Props/KernelTie.lean: the polynomial traced from the real code by symbolic execution (harness/gen_kernels.py ->
+# Gen/Kernels.lean, regenerated here on every run) equals the model kernel - one theorem per kernel x mode, proved by
+# `ring`.  Built and audited SEPARATELY from LEAN_MODULES: when a formula of geometry_processor.py changes, only this
+# module stops building; Props.C11 / the driver still build, so the P-tie localises the kernel and the oracle searches
+# for the concrete failing input.
+KT_MODULE = 'Femio.Props.KernelTie'
+KT_KERNELS = ([f'vol_{t}_{m}' for t in ('tet', 'tet2', 'pyr', 'prism', 'hexprism') for m in MODES]
+              + ['vol_hex_linear', 'vol_hex_centroid']
+              + [f'vol_poly{t}_{m}' for t in ('Tet', 'Pyr') for m in MODES]
+              + [f'area_tri_{m}' for m in MODES] + ['area_quad_linear', 'area_quad_centroid']
+              + [f'area_polygon{n}_{m}' for n in (3, 5) for m in MODES]
+              + [f'normal_{t}_{m}' for t in ('tri', 'quad') for m in MODES]
+              + [f'normal_polygon{n}_{m}' for n in (3, 5) for m in MODES])
+# KT_<kernel>: traced polynomial = model kernel over any commutative ring; KT_dispatch_<kernel>: the model's dispatch function
+# (volume / volumePoly / area / normal over Rat, what the driver evaluates) at that type and mode = traced polynomial / den
+EXTRA_THEOREMS = (['KT_integer_coefficients'] + ['KT_' + k for k in KT_KERNELS] + ['KT_dispatch_' + k for k in KT_KERNELS])
+
+
+def _kt_kernel(thm):
+    return thm[len('KT_dispatch_'):] if thm.startswith('KT_dispatch_') else thm[len('KT_'):]
+
+
+def _kt_failing(out):
+    """names of the KT_ theorems (or their sanity examples) at which `lake build Femio.Props.KernelTie` reported an error"""
+    import re
+    src = C.module_file(KT_MODULE)
+    starts = []
+    if src.exists():
+        for i, line in enumerate(src.read_text().splitlines(), 1):
+            mm = re.match(r'theorem\s+(KT_\w+)', line)
+            if mm:
+                starts.append((i, mm.group(1)))
+    failing, other = {}, []
+    for mm in re.finditer(r'^error: (\S+?\.lean):(\d+):\d+: (.*)$', out, re.M):
+        f, ln, msg = mm.group(1), int(mm.group(2)), mm.group(3)
+        name = None
+        if f.endswith('Props/KernelTie.lean'):
+            for i, nm in starts:
+                if i <= ln:
+                    name = nm
+        if name:
+            failing.setdefault(name, f'{f}:{ln}: {msg}'[:300])
+        else:
+            other.append(f'{f}:{ln}: {msg}'[:300])
+    for name in [n for n in failing if not n.startswith('KT_dispatch_') and n != 'KT_integer_coefficients']:
+        failing.setdefault('KT_dispatch_' + name[3:], f'rests on {name}, which failed')
+    return failing, other
+
+
+def kernel_tie(ctx):
+    """EXTRA_OBLIGATIONS hook of main.py: regenerate Gen/Kernels.lean from the working tree, build + audit KernelTie"""
+    import time
+    ev = {'module': KT_MODULE, 'technique': 'symbolic execution of the real calculate_element_volumes / _areas / _normals on one '
+          'element with symbolic coordinates; the traced polynomial = the model kernel is proved by `ring` on every run'}
+    ctx.extra['kernel_tie'] = ev
+    obl = []
+    try:
+        from . import gen_kernels as GK
+        changed, info = GK.generate()
+    except C.Timeout:
+        raise
+    except Exception as e:      # the translator itself is unavailable: recorded, not an alarm (the P-tie remains the tie)
+        ev['unavailable'] = f'{type(e).__name__}: {e}'[:400]
+        ctx.notes.append('kernel tie S unavailable (recorded only; tie P covers every kernel): ' + ev['unavailable'])
+        return obl
+    stale = set(info['stale'])
+    ev.update(traced_symbolically=info['traced'], untraceable=info['untraceable'], non_integer=info['non_integer'],
+              not_traced_by_design=info['not_traced_by_design'], patched_while_tracing=info['patched'],
+              trace_s=info['trace_s'], regenerated=bool(changed), normalize_calls=info['normalize_calls'])
+    if info['untraceable']:
+        ctx.notes.append(f'kernel tie S: {len(info["untraceable"])} kernel(s) untraceable (recorded only; tie P remains their tie): '
+                         + ', '.join(sorted(info['untraceable'])))
+    if set(info['kernels']) != set(KT_KERNELS):
+        ctx.notes.append('kernel tie S: kernel tables of gen_kernels.py and c11.py differ')
+    ok, out, dt = C.lake_build([KT_MODULE])
+    ev['build_s'] = round(dt, 1)
+    ev['checker_cmd'] = f'cd lean && lake build {KT_MODULE} && lake env lean Femio/Audit/KernelTie.lean'
+    live = [t for t in EXTRA_THEOREMS if _kt_kernel(t) not in stale]
+    if ok:
+        t0 = time.time()
+        thms, raw, aok = C.audit('KernelTie')
+        ev['audit_s'] = round(time.time() - t0, 1)
+        obl.append((f'lean:build:{KT_MODULE}', True, ''))
+        for name in live:
+            full = [k for k in thms if k == name or k.endswith('.' + name)]
+            if not full:
+                obl.append((f'theorem:{name}', False, 'not found in the output of Femio/Audit/KernelTie.lean'))
+                continue
+            ax = thms[full[0]]
+            bad = [a for a in ax if a not in C.ALLOWED_AXIOMS]
+            obl.append((f'theorem:{name}', not bad, 'axioms: ' + ', '.join(ax) if ax else 'no axioms'))
+        if ctx.tier == 'thorough':
+            with C.build_lock():
+                rc, lo = C.sh(['lake', 'env', 'leanchecker', KT_MODULE], cwd=C.LEAN, timeout=3000)
+            obl.append((f'leanchecker:{KT_MODULE}', rc == 0, lo[-500:]))
+        ev['proved'] = live
+    else:
+        failing, other = _kt_failing(out)
+        failing = {k: v for k, v in failing.items() if _kt_kernel(k) not in stale}
+        ev['failed'] = sorted(failing)
+        obl.append((f'lean:build:{KT_MODULE}', False, '; '.join(sorted(failing)) + (' | ' + ' | '.join(other[:5]) if other else '')
+                    or out[-600:]))
+        for name, msg in sorted(failing.items()):
+            obl.append((f'theorem:{name}', False, 'the polynomial traced from the working tree is not the model kernel: ' + msg))
+        ctx.notes.append('kernel tie S BROKEN for ' + ', '.join(sorted(failing)) + ' - the code no longer computes the '
+                         'polynomial of the model; tie P / the oracle below search for a concrete failing input')
+    return obl
+
+
+EXTRA_OBLIGATIONS = kernel_tie
+
+
 def directed_mixed():
     """fixed mixed meshes whose type blocks are NOT stored in ascending id order and whose elements differ in size"""
     P = [(0, 0, 0), (1, 0, 0), (0, 1, 0), (0, 0, 1), (5, 0, 0), (7, 0, 0), (5, 2, 0), (5, 0, 2),
@@ -1034,7 +1164,8 @@ def run(ctx):
         ptie_kernels(ctx, ctx.n(200, 2000))
     # ---- tie D (mesh level) + metamorphic oracle
     mismatch = {0: [], 1: []}
-    n_mesh = ctx.n(126, 700) if ctx.driver is not None else ctx.n(250, 1400)
+    kt_broken = bool(ctx.extra.get('kernel_tie', {}).get('failed'))     # a KT_ obligation failed: search harder, like oracle-only
+    n_mesh = ctx.n(126, 700) if (ctx.driver is not None and not kt_broken) else ctx.n(250, 1400)
     kinds = ['tet', 'hex', 'mixed', 'prism', 'pyr', 'tet2', 'shell:tri', 'shell:quad', 'shell:mixed', 'shell:polygon',
              'polyhedron', 'mixed', 'shell:mixed', 'batch:hexprism']
     trs = ['relabel', 'storage', 'rigid', 'translate', 'scale', 'reflect']
